@@ -39,10 +39,13 @@ def fold_unit(ctx, src):
     u.raw('#define X_CRC32_DEFAULT_SEED (%s)' % u.snippet(src, HHH, r'uint32_t crc32\(const void\* vdata, size_t size, uint32_t cs = ([^,;()]+)\);', group=1))
     u.raw('#define X_FNV1A32_START (%s)' % u.snippet(src, HHH, r'constexpr uint32_t FNV1A32_START = ([^;]+);', group=1))
     u.raw('#define X_FNV1A64_START (%s)' % u.snippet(src, HHH, r'constexpr uint64_t FNV1A64_START = ([^;]+);', group=1))
+    u.raw('#define FNV1A32_START X_FNV1A32_START\n#define FNV1A64_START X_FNV1A64_START    /* the header constants, for function bodies that name them */')
     for w in ('32', '64'):
-        # both overloads of each width must default to the named constant
-        u.snippet(src, HHH, r'uint%s_t fnv1a%s\(const void\* data, size_t size, uint%s_t hash = FNV1A%s_START\);' % (w, w, w, w))
-        u.snippet(src, HHH, r'uint%s_t fnv1a%s\(const std::string& data, uint%s_t hash = FNV1A%s_START\);' % (w, w, w, w))
+        # the default seed of both overloads of each width, as written in the header (the lemma groups decide that it is the offset basis)
+        d1 = u.snippet(src, HHH, r'uint%s_t fnv1a%s\(const void\* data, size_t size, uint%s_t hash = ([^,;()]+)\);' % (w, w, w), group=1).strip()
+        d2 = u.snippet(src, HHH, r'uint%s_t fnv1a%s\(const std::string& data, uint%s_t hash = ([^,;()]+)\);' % (w, w, w), group=1).strip()
+        c = lambda e: 'X_FNV1A%s_START' % w if e == 'FNV1A%s_START' % w else e
+        u.raw('#define X_FNV1A%s_DEFAULT (%s)\n#define X_FNV1A%s_DEFAULT_STR (%s)' % (w, c(d1), w, c(d2)))
     u.function(src, HCC, r'uint32_t crc32\(const void\* vdata, size_t size, uint32_t cs\)',
                body_prefix=' g_i = 0; ',
                rules=[LoopGhost(1,
